@@ -12,7 +12,7 @@ RULE = ("the six real adapters (constructed with new(base_url)) against a script
         "the manifest name. non-trivial = 200 with >= 2 versions, or a non-200 status; distinct by (adapter, status, body shape)")
 ASSUMPTIONS = ["JSON text -> value: Model/Json.lean vs serde_json (tied by this stream); sockets/TLS/redirects are reqwest's business",
                "1xx statuses are not generated (hyper treats them as interim responses)",
-               "GitHub releases: only the first page is read by the adapter (recorded finding F-C15-1)"]
+               "GitHub releases: at most MAX_RELEASE_PAGES (20) pages are followed (recorded finding F-C15-2)"]
 
 STATUSES = [200, 200, 200, 201, 204, 301, 304, 400, 401, 403, 404, 410, 418, 429, 500, 502, 503]
 NAMES = {"npm": ["lodash", "@scope/pkg", "@a/b.c", "left-pad"], "crates": ["serde", "tokio-util"],
@@ -108,16 +108,33 @@ def streams(ctx):
                 body = rng.choice(["<html>502</html>", "", "null", "[]", "{}", "NaN", '{"versions": {"1.0.0": {}},}']); adv = "?"
             headers = ""
             extra = []
-            if ad == "github" and status == 200 and isinstance(adv, set) and rng.chance(1, 4):
-                # a second page, announced by the Link header of the first
-                headers = 'Link: <http://127.0.0.1/repos/x/releases?page=2>; rel="next"\r\n'
-                p2 = [{"tag_name": v, "published_at": None} for v in ["0.1.0", "0.2.0"]]
-                extra = ["200", "", json.dumps(p2)]
-                adv = ("paged", adv, adv | {"0.1.0", "0.2.0"})
-            nresp = "2" if extra else "1"
+            if ad == "github" and status == 200 and isinstance(adv, set) and rng.chance(1, 3):
+                # more pages, each announced by the Link header of the one before (GitHub's pagination)
+                npages = 1 + rng.below(3)
+                headers = 'Link: <{BASE}/repos/x/releases?page=2>; rel="next", <{BASE}/repos/x/releases?page=9>; rel="last"\r\n'
+                allv = set(adv)
+                for pi in range(npages):
+                    vs = [f"0.{pi + 1}.{j}" for j in range(1 + rng.below(3))]
+                    allv |= set(vs)
+                    last = pi == npages - 1
+                    st2 = 200 if (last or rng.chance(5, 6)) else rng.choice([404, 429, 500])
+                    hd2 = "" if last else f'link: <{{BASE}}/repos/x/releases?page={pi + 3}>; rel="next"\r\n'
+                    extra += [str(st2), hd2, json.dumps([{"tag_name": v, "published_at": None} for v in vs])]
+                    if st2 != 200:
+                        allv = ("pagefail", st2); break
+                adv = ("paged", adv, allv)
+            nresp = str(1 + len(extra) // 3)
             cases.append({"req": vlib.line("http.fetch", ad, name, nresp, str(status), headers, body, *extra),
                           "tag": (ad, status, "ok" if isinstance(adv, set) else str(adv)[:6], len(adv) if isinstance(adv, set) else -1),
                           "ad": ad, "name": name, "status": status, "adv": adv, "atags": atags})
+
+    # the page bound: 21 chained pages of one release each
+    wextra = []
+    for pi in range(21):
+        hd = "" if pi == 20 else f'Link: <{{BASE}}/repos/x/releases?page={pi + 2}>; rel="next"\r\n'
+        wextra += ["200", hd, json.dumps([{"tag_name": f"1.0.{pi}", "published_at": None}])]
+    cases.append({"req": vlib.line("http.fetch", "github", "x/y", "21", *wextra), "tag": ("github", 200, "bound", 21),
+                  "ad": "github", "name": "x/y", "status": 200, "adv": ("bound", set(f"1.0.{i}" for i in range(21))), "atags": []})
 
     def parse_out(o):
         d = {"kind": o.split(" ")[0]}
@@ -148,10 +165,24 @@ def streams(ctx):
             probs = []
             ad, status, adv = c["ad"], c["status"], c["adv"]
             if isinstance(adv, tuple):
-                # paginated reply: everything on every page is advertised
+                # paginated reply: everything on every page is advertised; an error on any page is the answer
+                if adv[0] == "bound":
+                    if d.get("kind") == "ok" and set(d["versions"]) == set(f"1.0.{i}" for i in range(20)):
+                        der.append({"req": vlib.line("ml.settle"), "index": i, "history": [c["req"]], "check": (lambda out: ("known", "F-C15-2"))})
+                    elif not (d.get("kind") == "ok" and set(d["versions"]) == adv[1]):
+                        der.append({"req": vlib.line("ml.settle"), "index": i, "history": [c["req"]],
+                                    "check": (lambda out, o=o: ("violation", "21 chained pages: " + o[:160]))})
+                    continue
                 first, full = adv[1], adv[2]
+                if isinstance(full, tuple):
+                    st2 = full[1]
+                    want = "notfound" if st2 == 404 else ("ratelimited" if st2 == 429 else "invalid")
+                    if not (d.get("kind") == "err" and d.get("err") == want):
+                        der.append({"req": vlib.line("ml.settle"), "index": i, "history": [c["req"]],
+                                    "check": (lambda out, o=o, want=want: ("violation", f"a later page answered with an error ({want}) but the adapter reported {o[:120]}"))})
+                    continue
                 if d.get("kind") == "ok" and set(d["versions"]) == first and first != full:
-                    der.append({"req": vlib.line("bump.due", "patch", "1.0.0"), "index": i, "check": (lambda out: ("known", "F-C15-1"))})
+                    der.append({"req": vlib.line("ml.settle"), "index": i, "history": [c["req"]], "check": (lambda out: ("known", "F-C15-1"))})
                     continue
                 adv = full
             definitive = status == 404 or (ad == "go" and status == 410)
